@@ -438,7 +438,7 @@ pub fn gen_input(r: &mut Rng) -> (IG, Lat) {
         }
     };
     let offs: [i64; 5] = [0, 0, 1000, -100_000_000, 1 << 30];
-    let lat = Lat { ox: *r.pick(&offs), oy: *r.pick(&offs), sh: *r.pick(&[0, 0, 0, 1, 3, 10, -2, -10]), shear: 0 };
+    let lat = Lat { ox: *r.pick(&offs), oy: *r.pick(&offs), sh: *r.pick(&[0, 0, 0, 0, 1, 3, 10, -2, -10, -60, 50]), shear: 0 };
     let lat = if r.chance(1, 6) { Lat::random_sheared(r) } else { lat };
     (a, lat)
 }
